@@ -17,9 +17,11 @@ structure Inv (H0 : Heap) (cow : Nat) (H : Heap) : Prop where
   agree : ∀ id, id < H0.size → ¬ Writable H0 cow id → H.get id = H0.get id
   tagW : ∀ id, H.tag id = some cow → Writable H0 cow id
   freeW : ∀ id ∈ H.free, Writable H0 cow id
+  /-- owner tags only ever become `cow` (or disappear) -/
+  tagF : ∀ id c, H.tag id = some c → H0.tag id = some c ∨ c = cow
 
 theorem Inv.init (H0 : Heap) (cow : Nat) : Inv H0 cow H0 :=
-  ⟨Nat.le_refl _, fun _ _ _ => rfl, fun _ h => Or.inr (Or.inl h), fun _ h => Or.inr (Or.inr h)⟩
+  ⟨Nat.le_refl _, fun _ _ _ => rfl, fun _ h => Or.inr (Or.inl h), fun _ h => Or.inr (Or.inr h), fun _ _ h => Or.inl h⟩
 
 /-- running `m` keeps the invariant and its result satisfies `Q` -/
 def Pres {α : Type} (H0 : Heap) (cow : Nat) (m : M α) (Q : α → Prop) : Prop :=
@@ -57,6 +59,18 @@ theorem get_set_ne (l : List HNode) (id j : Nat) (n : HNode) (h : j ≠ id) :
 theorem get_ge (l : List HNode) (j : Nat) (h : l.length ≤ j) : l.getD j HNode.empty = HNode.empty := by
   simp [List.getD, List.getElem?_eq_none h]
 
+/-- the tag of a cell after one cell of the store was replaced -/
+theorem tag_set (l : List HNode) (id j : Nat) (n : HNode) :
+    ((l.set id n).getD j HNode.empty).cow = if j = id ∧ id < l.length then n.cow else (l.getD j HNode.empty).cow := by
+  by_cases hji : j = id
+  · subst hji
+    by_cases hl : j < l.length
+    · rw [get_set_self l j n hl]; simp [hl]
+    · have h1 : (l.set j n).getD j HNode.empty = HNode.empty := get_ge _ _ (by simp; omega)
+      have h2 : l.getD j HNode.empty = HNode.empty := get_ge _ _ (by omega)
+      rw [h1, h2]; simp [hl]
+  · rw [get_set_ne l id j n hji]; simp [hji]
+
 theorem tag_some_lt (H : Heap) (id c : Nat) (h : H.tag id = some c) : id < H.size := by
   by_cases hl : id < H.size
   · exact hl
@@ -72,7 +86,7 @@ theorem not_writable_lt {id : Nat} (h : ¬ Writable H0 cow id) : id < H0.size :=
 theorem Pres.wr (id : Nat) (is : List Item) (cs : List Nat) (hw : Writable H0 cow id) :
     Pres H0 cow (wr id is cs) (fun _ => True) := by
   intro H hi
-  refine ⟨⟨?_, ?_, ?_, ?_⟩, trivial⟩
+  refine ⟨⟨?_, ?_, ?_, ?_, ?_⟩, trivial⟩
   · simpa [Cow.wr, Heap.size] using hi.size
   · intro j hj hnw
     have hne : j ≠ id := fun e => hnw (e ▸ hw)
@@ -84,6 +98,13 @@ theorem Pres.wr (id : Nat) (is : List Item) (cs : List Nat) (hw : Writable H0 co
     · have : (Cow.wr id is cs H).2.tag j = H.tag j := congrArg HNode.cow (get_set_ne _ _ _ _ hji)
       exact hi.tagW j (this ▸ hj)
   · intro j hj; exact hi.freeW j (by simpa [Cow.wr] using hj)
+  · intro j c hj
+    have : (Cow.wr id is cs H).2.tag j = H.tag j := by
+      show ((H.nodes.set id _).getD j HNode.empty).cow = _
+      rw [tag_set]; split
+      · rename_i h; rw [h.1]; rfl
+      · rfl
+    exact hi.tagF j c (this ▸ hj)
 
 /-- `newNode` returns a writable cell -/
 theorem Pres.newNode : Pres H0 cow (newNode cow) (Writable H0 cow) := by
@@ -92,7 +113,7 @@ theorem Pres.newNode : Pres H0 cow (newNode cow) (Writable H0 cow) := by
   cases hf : H.free with
   | nil =>
     simp only
-    refine ⟨⟨?_, ?_, ?_, ?_⟩, Or.inl hi.size⟩
+    refine ⟨⟨?_, ?_, ?_, ?_, ?_⟩, Or.inl hi.size⟩
     · simp [Heap.size]; have := hi.size; simp [Heap.size] at this; omega
     · intro j hj hnw
       have hjl : j < H.nodes.length := by have := hi.size; simp only [Heap.size] at this hj; omega
@@ -106,10 +127,24 @@ theorem Pres.newNode : Pres H0 cow (newNode cow) (Writable H0 cow) := by
         exact hi.tagW j (this ▸ hj)
       · exact Or.inl (by have := hi.size; simp only [Heap.size] at this ⊢; omega)
     · intro j hj; simp [hf] at hj
+    · intro j c hj
+      by_cases hjl : j < H.nodes.length
+      · have : (Heap.tag { H with nodes := H.nodes ++ [⟨[], [], some cow⟩], free := [] } j) = H.tag j := by
+          simp [Heap.tag, Heap.get, List.getD, List.getElem?_append_left hjl]
+        exact hi.tagF j c (this ▸ hj)
+      · by_cases hje : j = H.nodes.length
+        · have : (Heap.tag { H with nodes := H.nodes ++ [⟨[], [], some cow⟩], free := [] } j) = some cow := by
+            simp [Heap.tag, Heap.get, List.getD, hje]
+          rw [this] at hj; right; exact (Option.some.inj hj).symm
+        · have : (Heap.tag { H with nodes := H.nodes ++ [⟨[], [], some cow⟩], free := [] } j) = none := by
+            have hl : (H.nodes ++ [(⟨[], [], some cow⟩ : HNode)]).length ≤ j := by simp; omega
+            show ((H.nodes ++ [(⟨[], [], some cow⟩ : HNode)]).getD j HNode.empty).cow = none
+            rw [get_ge _ _ hl]; rfl
+          rw [this] at hj; cases hj
   | cons id rest =>
     simp only
     have hw : Writable H0 cow id := hi.freeW id (by simp [hf])
-    refine ⟨⟨?_, ?_, ?_, ?_⟩, hw⟩
+    refine ⟨⟨?_, ?_, ?_, ?_, ?_⟩, hw⟩
     · simpa [Heap.size] using hi.size
     · intro j hj hnw
       have hne : j ≠ id := fun e => hnw (e ▸ hw)
@@ -123,6 +158,13 @@ theorem Pres.newNode : Pres H0 cow (newNode cow) (Writable H0 cow) := by
           congrArg HNode.cow (get_set_ne _ _ _ _ hji)
         exact hi.tagW j (this ▸ hj)
     · intro j hj; exact hi.freeW j (by simp [hf, hj])
+    · intro j c hj
+      have : (Heap.tag { H with free := rest, nodes := H.nodes.set id ⟨[], [], some cow⟩ } j) =
+          if j = id ∧ id < H.nodes.length then some cow else H.tag j := tag_set _ _ _ _
+      rw [this] at hj
+      split at hj
+      · right; exact (Option.some.inj hj).symm
+      · exact hi.tagF j c hj
 
 /-- `freeNode` clears (and perhaps parks) only a cell owned by `cow` -/
 theorem Pres.freeNode (id : Nat) : Pres H0 cow (freeNode cow id) (fun _ => True) := by
@@ -134,7 +176,15 @@ theorem Pres.freeNode (id : Nat) : Pres H0 cow (freeNode cow id) (fun _ => True)
     have key : ∀ fr : List Nat, (∀ j ∈ fr, Writable H0 cow j) →
         Inv H0 cow { H with nodes := H.nodes.set id HNode.empty, free := fr } := by
       intro fr hfr
-      refine ⟨?_, ?_, ?_, hfr⟩
+      refine ⟨?_, ?_, ?_, hfr, ?_⟩
+      rotate_right
+      · intro j c hj
+        have : (Heap.tag { H with nodes := H.nodes.set id HNode.empty, free := fr } j) =
+            if j = id ∧ id < H.nodes.length then HNode.empty.cow else H.tag j := tag_set _ _ _ _
+        rw [this] at hj
+        split at hj
+        · simp [HNode.empty] at hj
+        · exact hi.tagF j c hj
       · simpa [Heap.size] using hi.size
       · intro j hj hnw
         have hne : j ≠ id := fun e => hnw (e ▸ hw)
@@ -153,6 +203,19 @@ theorem Pres.freeNode (id : Nat) : Pres H0 cow (freeNode cow id) (fun _ => True)
         · exact hw
         · exact hi.freeW j hj), trivial⟩
     · exact ⟨key _ hi.freeW, trivial⟩
+  · simp only [ho, if_false]; exact ⟨hi, trivial⟩
+
+/-- `freeNodeT` is `freeNode` plus a report -/
+theorem Pres.freeNodeT (id : Nat) : Pres H0 cow (freeNodeT cow id) (fun _ => True) := by
+  intro H hi
+  have h := Pres.freeNode (H0 := H0) (cow := cow) id H hi
+  unfold Cow.freeNode at h
+  unfold Cow.freeNodeT
+  by_cases ho : (H.get id).cow = some cow
+  · simp only [ho, if_true] at h ⊢
+    split
+    · rename_i hl; simp only [hl, if_true] at h; exact ⟨h.1, trivial⟩
+    · rename_i hl; simp only [hl, if_false] at h; exact ⟨h.1, trivial⟩
   · simp only [ho, if_false]; exact ⟨hi, trivial⟩
 
 end Nv.C03.Cow
